@@ -130,6 +130,16 @@ fn capacity_override() -> Option<usize> {
     IO_CAPACITY.with(|c| c.get())
 }
 
+thread_local! {
+    /// log2 of the factor by which explicitly built IoBuffers are aligned more strictly than the message
+    /// type needs (`IoBuffer::new(pipe, capacity, M::ALIGN << shift)`; the public constructor takes any alignment)
+    pub static IO_ALIGN_SHIFT: std::cell::Cell<u32> = std::cell::Cell::new(0);
+}
+
+fn buf_align<T: Shape + ?Sized>() -> usize {
+    T::ALIGN << IO_ALIGN_SHIFT.with(|c| c.get()).min(4)
+}
+
 fn apply_post_ops<T: Shape + ?Sized>(i: usize, x: &mut T) {
     POST_OPS.with(|p| {
         if let Some(ops) = p.borrow().get(i) {
@@ -174,7 +184,7 @@ pub fn send_blocking<T: Shape + ?Sized>(msgs: &[Value], routes: &[u8], max_msg_l
     let mut log_lens = Vec::new();
     let sink_ptr: *const ScriptSink = sink;
     let mut sender = match capacity_override() {
-        Some(cap) => Sender::<T, _>::new(IoBuffer::new(&mut *sink, cap, T::ALIGN)),
+        Some(cap) => Sender::<T, _>::new(IoBuffer::new(&mut *sink, cap, buf_align::<T>())),
         None => Sender::<T, _>::io(&mut *sink, max_msg_len),
     };
     for (i, m) in msgs.iter().enumerate() {
@@ -221,7 +231,7 @@ pub fn recv_blocking<T: Shape + ?Sized>(source: &mut ScriptSource, max_msg_len: 
     let mut dl = Vec::new();
     let src_ptr: *const ScriptSource = source;
     let mut receiver = match capacity_override() {
-        Some(cap) => Receiver::<T, _>::new(IoBuffer::new(&mut *source, cap, T::ALIGN)),
+        Some(cap) => Receiver::<T, _>::new(IoBuffer::new(&mut *source, cap, buf_align::<T>())),
         None => Receiver::<T, _>::io(&mut *source, max_msg_len),
     };
     let mut retries_left = retries;
@@ -310,7 +320,7 @@ pub fn async_send<T: Shape + ?Sized>(msgs: &[Value], routes: &[u8], max_msg_len:
     let mut stalled = false;
     let sink_ptr: *const ScriptSink = sink;
     let mut sender = match capacity_override() {
-        Some(cap) => AsyncSender::<T, _>::new(IoBuffer::new(&mut *sink, cap, T::ALIGN)),
+        Some(cap) => AsyncSender::<T, _>::new(IoBuffer::new(&mut *sink, cap, buf_align::<T>())),
         None => AsyncSender::<T, _>::io(&mut *sink, max_msg_len),
     };
     for (i, m) in msgs.iter().enumerate() {
@@ -374,7 +384,7 @@ pub fn async_recv<T: Shape + ?Sized>(source: &mut ScriptSource, max_msg_len: usi
     let mut dl = Vec::new();
     let src_ptr: *const ScriptSource = source;
     let mut receiver = match capacity_override() {
-        Some(cap) => AsyncReceiver::<T, _>::new(IoBuffer::new(&mut *source, cap, T::ALIGN)),
+        Some(cap) => AsyncReceiver::<T, _>::new(IoBuffer::new(&mut *source, cap, buf_align::<T>())),
         None => AsyncReceiver::<T, _>::io(&mut *source, max_msg_len),
     };
     let mut retries_left = retries;
@@ -494,7 +504,7 @@ pub fn async_joined<T: Shape + ?Sized>(
         let closer = wend.clone();
         let sender_task = async {
             let mut sender = match capacity_override() {
-                Some(cap) => AsyncSender::<T, _>::new(IoBuffer::new(wend, cap, T::ALIGN)),
+                Some(cap) => AsyncSender::<T, _>::new(IoBuffer::new(wend, cap, buf_align::<T>())),
                 None => AsyncSender::<T, _>::io(wend, max_msg_len),
             };
             for (i, m) in msgs.iter().enumerate() {
@@ -525,7 +535,7 @@ pub fn async_joined<T: Shape + ?Sized>(
         };
         let receiver_task = async {
             let mut receiver = match capacity_override() {
-                Some(cap) => AsyncReceiver::<T, _>::new(IoBuffer::new(rend, cap, T::ALIGN)),
+                Some(cap) => AsyncReceiver::<T, _>::new(IoBuffer::new(rend, cap, buf_align::<T>())),
                 None => AsyncReceiver::<T, _>::io(rend, max_msg_len),
             };
             let mut retained: Option<Value> = None;
